@@ -87,6 +87,7 @@ def run_contract(task, budget_s=120):
     rounds = c.get('rounds', 2)
     counts = {}
     ci, cn = task.get('chunk') or [0, 1]
+    small = entry_lengths(gen.entry_env) if c.get('kind') != 'lemma' else ()
     for oi, ob in enumerate(obls):
         k = counts.get(ob.name, 0)
         counts[ob.name] = k + 1
@@ -96,7 +97,7 @@ def run_contract(task, budget_s=120):
         if time.time() > t_end:
             out['obligations'].append({'name': nm, 'status': 'undecided', 'why': 'function budget exhausted', 'kind': ob.kind})
             continue
-        r = solve.discharge(ob, timeout_ms=tmo, rounds=rounds, sum_frame=not c.get('no_sum_frame'))
+        r = solve.discharge(ob, timeout_ms=tmo, rounds=rounds, sum_frame=not c.get('no_sum_frame'), small=small)
         rec = {'name': nm, 'status': r['status'], 'backend': r.get('backend'), 'ms': r.get('ms'), 'kind': ob.kind,
                'nhyps': r.get('nhyps'), 'line': ob.line}
         if r['status'] == 'refuted':
@@ -120,6 +121,34 @@ def run_contract(task, budget_s=120):
     return out
 
 
+def entry_lengths(env):
+    """the integer terms that decide how big a counter-model is: list lengths (all levels) of the entry state"""
+    out = []
+
+    def walk(x, depth=0):
+        if isinstance(x, core.SList):
+            out.append(x.ln)
+            if x.nested():
+                for i in range(13):
+                    r = x.row(z3.IntVal(i))
+                    out.append(r.ln)
+                    if r.nested():
+                        for j in range(13):
+                            out.append(r.row(z3.IntVal(j)).ln)
+        elif isinstance(x, core.STuple):
+            for i in x.items:
+                walk(i)
+        elif isinstance(x, core.SDict):
+            for v in x.d.values():
+                walk(v)
+        elif isinstance(x, core.SObject):
+            for v in x.attrs.values():
+                walk(v)
+    for v in (env or {}).values():
+        walk(v)
+    return out
+
+
 def inputs_from_model(m, entry_env, c, maxlen=40):
     """function arguments of the counter-model as JSON-able values (reals as 'p/q' strings)"""
     def val(e):
@@ -136,33 +165,38 @@ def inputs_from_model(m, entry_env, c, maxlen=40):
             a = v.approx(20)
             return '%d/%d' % (a.numerator_as_long(), a.denominator_as_long())
         raise ValueError('no concrete value for %s' % e)
-    out = {}
-    for a, t in c['args'].items():
-        x = entry_env.get(a)
+    def lst(x):
+        n = val(x.ln)
+        if n > maxlen:
+            raise ValueError('list too long in the model (%d)' % n)
+        if n < 0:
+            raise ValueError('negative length in the model')
+        if x.nested():
+            return {'list': [lst(x.row(z3.IntVal(i))) for i in range(n)]}
+        return {'list': [val(z3.Select(x.arr, i)) for i in range(n)]}
+
+    def conv(x):
         if isinstance(x, core.SList):
-            n = val(x.ln)
-            if n > maxlen:
-                raise ValueError('list %s too long in the model (%d)' % (a, n))
-            if x.nested():
-                rows = []
-                for i in range(n):
-                    rl = val(z3.Select(x.ilen, i))
-                    if rl > maxlen:
-                        raise ValueError('row too long')
-                    rows.append({'list': [val(z3.Select(z3.Select(x.arr, i), j)) for j in range(rl)]})
-                out[a] = {'list': rows}
-            else:
-                out[a] = {'list': [val(z3.Select(x.arr, i)) for i in range(n)]}
-        elif z3.is_expr(x):
-            out[a] = val(x)
-        elif isinstance(x, core.STuple) and all(z3.is_expr(i) for i in x.items):
-            out[a] = {'list': [val(i) for i in x.items]}
-        elif isinstance(x, core.SObject):
+            return lst(x)
+        if z3.is_expr(x):
+            return val(x)
+        if isinstance(x, core.STuple):
+            return {'list': [conv(i) for i in x.items]}
+        if isinstance(x, core.SDict):
+            return {'dict': dict((k, conv(v)) for k, v in x.d.items())}
+        raise ValueError('no JSON form for %r' % (x,))
+    out = {}
+    names = list(c['args'].items()) + list((c.get('ghost_args') or {}).items())
+    for a, t in names:
+        x = entry_env.get(a)
+        if x is None or t == 'kwargs' or isinstance(x, core.SKwargs):
+            continue
+        if isinstance(x, core.SObject):
             for k, v in x.attrs.items():
-                if isinstance(v, core.SList):
-                    continue
-                if isinstance(v, core.STuple) and all(z3.is_expr(i) for i in v.items):
-                    out['%s.%s' % (a, k)] = {'list': [val(i) for i in v.items]}
-                elif z3.is_expr(v):
-                    out['%s.%s' % (a, k)] = val(v)
+                try:
+                    out['%s.%s' % (a, k)] = conv(v)
+                except ValueError:
+                    pass
+            continue
+        out[a] = conv(x)
     return out
